@@ -31,6 +31,7 @@ func runC26(c *Ctx) {
 	const P = "C26"
 	c.rule(P, "fit", "stop test involves the next entry's size or leaves a margin >= one maximal entry + trailer", 2)
 	c.rule(P, "toosmall", "NFS3ERR_TOOSMALL is a reachable status of READDIR and READDIRPLUS", 2)
+	c.rule(P, "floor", "the client's count/maxcount is not silently raised to a floor", 0)
 	c.rule(P, "cookie", "entry cookie = index+1; resume skips indices < cookie; eof = !stopped-for-size", 6)
 	ent, err := p.entrySet()
 	if err != nil {
@@ -51,7 +52,7 @@ func runC26(c *Ctx) {
 		}
 		// the stop test: If in the entry loop comparing buf.Len() with a bound
 		var stopIf *ssa.If
-		var bound ssa.Value
+		var bound, boundForFloor ssa.Value
 		for _, b := range h.Blocks {
 			ifi := blockIf(b)
 			if ifi == nil || !inCycle(b) {
@@ -62,7 +63,7 @@ func runC26(c *Ctx) {
 				continue
 			}
 			if hasOrigin(fl.Origins(bo.X), func(o Origin) bool { return o.Kind == "call" && strings.Contains(o.Desc, "(*bytes.Buffer).Len") }) {
-				stopIf, bound = ifi, bo.Y
+				stopIf, bound, boundForFloor = ifi, bo.Y, bo.Y
 				// does the compared quantity include the entry's size?
 				if hasOrigin(fl.Origins(bo.X), func(o Origin) bool { return strings.Contains(o.Desc, "path.Base") || strings.Contains(o.Desc, "field:NFSNode.path") }) {
 					bound = nil
@@ -74,6 +75,12 @@ func runC26(c *Ctx) {
 			c.bad(P, "fit", key, p.pos(h.Pos()), "no size test in the entry loop: the reply is not limited by "+spec.limit)
 		} else if bound == nil {
 			c.ok(P, "fit", key, p.instrPos(stopIf), "the stop test accounts for the entry about to be added")
+			// a floor that silently raises a small client limit defeats the limit for those requests
+			if fl := floorConst(boundForFloor); fl >= 0 {
+				c.bad(P, "floor", key, p.instrPos(stopIf), fmt.Sprintf("a %s below %d is raised to %d instead of being refused with NFS3ERR_TOOSMALL: for such requests the encoded reply can exceed the limit the client gave", spec.limit, fl, fl))
+			} else {
+				c.ok(P, "floor", key, p.instrPos(stopIf), "the client's limit is used as given")
+			}
 		} else {
 			// bound = wire limit - margin, possibly floored: find SUB constant and floor constants
 			margin := int64(-1)
@@ -249,7 +256,8 @@ func runC27(c *Ctx) {
 	isEntry := map[*ssa.Function]bool{hc: true}
 	fl := newFlow(p)
 	fl.ExpandParams = true
-	safe := func(f condFact) bool {
+	var safe func(f condFact) bool
+	baseSafe := func(f condFact) bool {
 		if call, ok := f.V.(*ssa.Call); ok && f.Val {
 			if callee := staticCallee(call); callee != nil && qualFn(callee) == "(net.IP).IsLoopback" {
 				// receiver derives from the remote address
@@ -271,6 +279,7 @@ func runC27(c *Ctx) {
 		}
 		return false
 	}
+	safe = p.withBoolSummaries(baseSafe)
 	n := 0
 	for _, fn := range p.SrcFuncs {
 		if !reach[fn] {
@@ -699,4 +708,47 @@ func cloneSharesCert(p *Prog, clone *ssa.Function) bool {
 		}
 	}
 	return false
+}
+
+// floorConst: the bound is a phi / local whose alternatives include a constant
+// that replaces small wire values (if x < K { x = K }): returns K or -1.
+func floorConst(v ssa.Value) int64 {
+	floor := int64(-1)
+	seen := map[ssa.Value]bool{}
+	var walk func(v ssa.Value)
+	walk = func(v ssa.Value) {
+		if v == nil || seen[v] {
+			return
+		}
+		seen[v] = true
+		switch x := v.(type) {
+		case *ssa.Phi:
+			for _, e := range x.Edges {
+				if k, ok := constInt(e); ok {
+					floor = k
+				} else {
+					walk(e)
+				}
+			}
+		case *ssa.Convert:
+			walk(x.X)
+		case *ssa.BinOp:
+			walk(x.X)
+		case *ssa.UnOp:
+			if al, ok := x.X.(*ssa.Alloc); ok {
+				forEachUseOfCell(al, func(in ssa.Instruction, how string, cc ssa.CallInstruction, i int) {
+					if how == "store" {
+						st := in.(*ssa.Store)
+						if k, ok := constInt(st.Val); ok {
+							floor = k
+						} else {
+							walk(st.Val)
+						}
+					}
+				})
+			}
+		}
+	}
+	walk(v)
+	return floor
 }
